@@ -14,6 +14,7 @@ From LV Require Model.A85 Model.AsciiHex Spec.AsciiHexSpec Proofs.AsciiHexProofs
 From LV Require Import Proofs.SpellingNumProofs Proofs.SpellingObjProofs Proofs.SpellingFileProofs Proofs.SpellingProofsLitRaw.
 From LV Require Model.Utf Proofs.LoadsFrameProofs Proofs.LoadsTableProofs Proofs.LoadsStreamProofs Proofs.LoadsFilterProofs.
 From LV Require Model.LoaderExt Model.StreamFilt Spec.StreamCodecSpec Model.Png Proofs.ObjStmSpellProofs Proofs.LengthRefProofs Gen.SaveFmt Proofs.LoadsRefLenProofs Proofs.ObjStmFilterProofs.
+From LV Require Proofs.LoadsLoopProofs Proofs.LoadsObjStmProofs Proofs.LoadsObjStmFile Proofs.LoadsObjStmWhole.
 Local Open Scope N_scope.
 
 (* (1) Cross-reference streams.  For ALL field widths (0 = field absent, any positive width, not all three
@@ -837,6 +838,172 @@ Theorem C02_example_objstm_new_filtered :
     OsOk [((4, 0), OInt 5); ((5, 0), OName (bs "N x")); ((7, 0), ODict [(bs "K", OArr [ORef 1 0; OStr (bs "a") false])])].
 Proof. eexists. split; [vm_compute; reflexivity|]. split; [exact I|vm_compute; reflexivity]. Qed.
 
+(* WHOLE FILES WITH OBJECT STREAMS (and everything else a single-section file in the cross-reference STREAM format may hold),
+   against c01's extended reader with Stream::decompress := decompress_ref.  For every style with a cross-reference stream
+   -- any W, any Index partition, no filter or any of the filter chains incl. predictors (as C02_loads_stream_filtered_partial) --
+   ANY NUMBER OF OBJECT STREAMS holding any subset of the generation-0 non-stream objects (every member in any spelling, any
+   index white-space, the container under no filter / ASCII85 / ASCIIHex / stored-block Flate / ASCII85 around Flate, its own
+   dictionary in any spelling), top-level objects in any order and spelling, streams whose Length is written directly, as a
+   reference to a TOP-LEVEL integer object (the reader finds it while parsing: eager) or as a reference to an integer KEPT IN AN
+   OBJECT STREAM (the reader leaves the stream without content and Reader::read_stream_content restores it after the object
+   streams are merged: deferred): load_ext returns a document with the version, the trailer = the stream dictionary as read
+   back without Length / W / Index (and Filter / DecodeParms), and EXACTLY these objects:
+     every top-level object as [loaded_top] (a stream with exactly its data, Length an integer),
+     every member of every object stream as [member_val] (= [denote] of the object in the style its container gives it:
+       C02_member_value), under generation 0,
+     every container (Type ObjStm, decoded payload) and the cross-reference stream object under their own numbers,
+     and nothing else.
+   The three passes of the reader (read the entries in use; merge the object streams: members the table places in a container
+   first, or_insert; restore the streams left without content) are proved format-independently in Proofs/LoadsLoopProofs.v.
+   PARTIAL with respect to C02_full in these points only: [cont_ok]: no PNG predictor on an object stream (the writer pads
+   such a payload with spaces to whole rows: not composed), every container has at least one member and at most 65536 (lopdf
+   keeps the index in its container as a u16), the payload's objects below 4 GiB; (b)-(d) as for the other formats. *)
+Theorem C02_loads_objstm_partial :
+  forall (st : fstyle) (a : adoc) (x : xsstyle) (file : bytes),
+    s_xref st = XStream x -> ref_write st a = Some file ->
+    Forall (LoadsRefLenProofs.top_ok2 a) (LoadsObjStmFile.ptops st a) ->
+    Forall (LoadsObjStmFile.cont_ok a) (s_ostms st) -> Utf.utf8_decode (a_version a) <> None ->
+    (spell_wf (ODict (LoadsObjStmWhole.gxdf st a x)) (i_obj (xs_istyle x)) /\
+     (nest (ODict (LoadsObjStmWhole.gxdf st a x)) <= MAX_DEPTH)%nat /\
+     dict_get (a_trailer a) K_Prev = None /\ dict_get (a_trailer a) K_Encrypt = None /\
+     dict_get (a_trailer a) K_Filter = None /\ dict_get (a_trailer a) K_Index = None) ->
+    dict_get (a_trailer a) K_DecodeParms = None ->
+    (LoadsObjStmFile.gxpos st a (LoadsObjStmWhole.contsof st a) <= u32_max /\ LoadsObjStmFile.sizeG st a x <= u32_max /\
+     25 < LoadsObjStmFile.gxpos st a (LoadsObjStmWhole.contsof st a)) ->
+    N.of_nat (LoadsObjStmFile.gw0 st a x (LoadsObjStmWhole.contsof st a) + LoadsObjStmFile.gw1 st a x (LoadsObjStmWhole.contsof st a) +
+              LoadsObjStmFile.gw2 st a x (LoadsObjStmWhole.contsof st a)) <= Png.USIZE_MAX ->
+    (9 + length (LoadsTableProofs.sx_mid (s_sx_eol1 st) (s_sx_sp1 st) (LoadsObjStmFile.gxpos st a (LoadsObjStmWhole.contsof st a))
+                   (s_sx_sp2 st) (s_sx_eol2 st)) <= 25)%nat ->
+    exists d, LoaderExt.load_ext LoadsFilterProofs.decompress_ref LoadsFilterProofs.can_ref file = LOk d XTStream /\
+      d_version d = a_version a /\ d_trailer d = LoadsObjStmWhole.tGof st a x /\
+      (forall tp, In tp (LoadsObjStmFile.ptops st a) -> lookup (d_objects d) (fst (fst tp)) = Some (LoadsTableProofs.loaded_top tp)) /\
+      (forall s n, In s (s_ostms st) -> In n (os_members s) ->
+                   lookup (d_objects d) (n, 0) = Some (LoadsObjStmProofs.member_val (a_objs a) s n)) /\
+      (forall s, In s (s_ostms st) ->
+                 exists d', lookup (d_objects d) (os_id s, 0) =
+                            Some (OStream d' (ObjStmFilterProofs.payload s (LoadsObjStmFile.itemsof a s)))) /\
+      lookup (d_objects d) (xs_id x, 0) =
+        Some (stream_new (LoadsObjStmFile.ddG st a x (LoadsObjStmWhole.contsof st a) (snd (LoadsObjStmWhole.gxs_enc st a x))
+                            (fst (LoadsObjStmWhole.gxs_enc st a x))) (fst (LoadsObjStmWhole.gxs_enc st a x))) /\
+      (forall id o, lookup (d_objects d) id = Some o ->
+         (exists tp, In tp (LoadsObjStmFile.ptops st a) /\ fst (fst tp) = id) \/
+         (exists s n, In s (s_ostms st) /\ In n (os_members s) /\ id = (n, 0)) \/
+         (exists s, In s (s_ostms st) /\ id = (os_id s, 0)) \/ id = (xs_id x, 0)).
+Proof. exact LoadsObjStmWhole.loads_objstm_file. Qed.
+
+(* what a member is loaded as: [denote] of the object of that number in the style the container gives it *)
+Theorem C02_member_value :
+  forall (objs : list (oid * obj)) (s : ostm) (n : N),
+    (forall m, In m (os_members s) -> exists g o, find_obj objs m = Some (g, o)) -> In n (os_members s) ->
+    exists g o y, find_obj objs n = Some (g, o) /\ In (o, y) (ObjStmSpellProofs.os_pairs objs (os_members s) (os_items s)) /\
+                  LoadsObjStmProofs.member_val objs s n = denote o y.
+Proof. intros objs s n. exact (LoadsObjStmProofs.member_val_denote objs (os_members s) (os_items s) n). Qed.
+
+(* the reader's passes, format independent: the members of object streams that the table places in their container are
+   added where no object is present yet, earlier containers first; a stream left without content whose Length refers
+   to a loaded integer gets exactly its data *)
+Theorem C02_merge_object_streams :
+  forall (x : xmap) (ostm : list (N * objmap)) (m : objmap),
+    (forall k mems io, In (k, mems) ostm -> In io mems -> LoaderExt.is_named x k (fst io) = true) ->
+    forall i, lookup (LoaderExt.merge_object_streams x m ostm) i =
+              match lookup m i with Some v => Some v | None => LoadsLoopProofs.find_member ostm i end.
+Proof. exact LoadsLoopProofs.merge_all_named. Qed.
+
+Theorem C02_zero_length_pass :
+  forall (buf : bytes) (F : oid -> obj) (m : objmap) (p : LoaderExt.posmap) (zs : list oid),
+    LoadsLoopProofs.deferred_ok buf F m p -> NoDup zs ->
+    (forall id, In id zs -> exists d c, lookup m id = Some (OStream d c)) ->
+    (forall id start, LoaderExt.pos_get p id = Some start -> In id zs) ->
+    forall i, lookup (LoaderExt.zero_pass buf m p zs) i =
+              match LoaderExt.pos_get p i with Some _ => Some (F i) | None => lookup m i end.
+Proof. exact LoadsLoopProofs.zero_pass_lookup. Qed.
+
+Definition ex_adoc_os : adoc :=
+  {| a_version := bs "1.5"; a_trailer := [(bs "Root", ORef 7 0)];
+     a_objs := ex_os_objs ++ [((3, 2), OStream [(bs "Length", ORef 4 0)] (bs "a(b" ++ [x0d; x0a])); ((9, 0), OStr (bs "top") true)] |}.
+Definition ex_xs_os : xsstyle :=
+  {| xs_id := 21; xs_w := (0%nat, 1%nat, 0%nat); xs_secs := [(3, 3); (7, 1); (9, 1); (20, 2)]; xs_omit_index := false;
+     xs_filter := SfAHx true [7; 3]; xs_array := false; xs_istyle := default_istyle |}.
+Definition ex_fstyle_os : fstyle :=
+  {| s_junk := bs "junk" ++ [x0a]; s_hdr_eol := ECRLF; s_binary := Some ([xe2; xe3], ECR); s_order := [20; 3];
+     s_objs := []; s_ostms := [ex_ostm]; s_xref := XStream ex_xs_os;
+     s_sx_eol1 := ECRLF; s_sx_sp1 := 1; s_sx_sp2 := 2; s_sx_eol2 := ECR; s_final_eol := Some ELF |}.
+
+(* non-vacuity: objects 4, 7, 5 in an object stream (ASCII85 around Flate, number 20) written first, a top-level stream 3 whose
+   Length is "4 0 R" -- a member of the object stream: the deferred path --, a top-level string 9, the cross-reference stream 21
+   in ASCIIHex with W [1 2 1] and Index [3 3 7 1 9 1 20 2]: every hypothesis holds, and the loader model returns stream 3 with
+   its five bytes *)
+Theorem C02_example_loads_objstm :
+  ref_write ex_fstyle_os ex_adoc_os <> None /\
+  Forall (LoadsRefLenProofs.top_ok2 ex_adoc_os) (LoadsObjStmFile.ptops ex_fstyle_os ex_adoc_os) /\
+  Forall (LoadsObjStmFile.cont_ok ex_adoc_os) (s_ostms ex_fstyle_os) /\
+  (spell_wf (ODict (LoadsObjStmWhole.gxdf ex_fstyle_os ex_adoc_os ex_xs_os)) (i_obj (xs_istyle ex_xs_os)) /\
+   (nest (ODict (LoadsObjStmWhole.gxdf ex_fstyle_os ex_adoc_os ex_xs_os)) <= MAX_DEPTH)%nat) /\
+  (LoadsObjStmFile.gxpos ex_fstyle_os ex_adoc_os (LoadsObjStmWhole.contsof ex_fstyle_os ex_adoc_os) <= u32_max /\
+   LoadsObjStmFile.sizeG ex_fstyle_os ex_adoc_os ex_xs_os <= u32_max /\
+   25 < LoadsObjStmFile.gxpos ex_fstyle_os ex_adoc_os (LoadsObjStmWhole.contsof ex_fstyle_os ex_adoc_os)) /\
+  (9 + length (LoadsTableProofs.sx_mid (s_sx_eol1 ex_fstyle_os) (s_sx_sp1 ex_fstyle_os)
+                 (LoadsObjStmFile.gxpos ex_fstyle_os ex_adoc_os (LoadsObjStmWhole.contsof ex_fstyle_os ex_adoc_os))
+                 (s_sx_sp2 ex_fstyle_os) (s_sx_eol2 ex_fstyle_os)) <= 25)%nat /\
+  (match LoaderExt.load_ext LoadsFilterProofs.decompress_ref LoadsFilterProofs.can_ref
+           (match ref_write ex_fstyle_os ex_adoc_os with Some f => f | None => [] end) with
+   | LOk d _ => lookup (d_objects d) (3, 2) = Some (OStream [(bs "Length", OInt 5)] (bs "a(b" ++ [x0d; x0a])) /\
+                lookup (d_objects d) (7, 0) = Some (ODict [(bs "K", OArr [ORef 1 0; OStr (bs "a") false])])
+   | _ => False
+   end).
+Proof.
+  assert (Hx : LoadsObjStmFile.gxpos ex_fstyle_os ex_adoc_os (LoadsObjStmWhole.contsof ex_fstyle_os ex_adoc_os) = 373) by (vm_compute; reflexivity).
+  assert (Hs : LoadsObjStmFile.sizeG ex_fstyle_os ex_adoc_os ex_xs_os = 22) by (vm_compute; reflexivity).
+  assert (Hd : LoadsObjStmWhole.gxdf ex_fstyle_os ex_adoc_os ex_xs_os =
+    [(bs "Type", OName (bs "XRef")); (bs "Size", OInt 22); (bs "W", OArr [OInt 1; OInt 2; OInt 1]);
+     (bs "Index", OArr [OInt 3; OInt 3; OInt 7; OInt 1; OInt 9; OInt 1; OInt 20; OInt 2]); (bs "Root", ORef 7 0);
+     (bs "Filter", OName (bs "ASCIIHexDecode")); (bs "Length", OInt 67)]) by (vm_compute; reflexivity).
+  split; [vm_compute; discriminate|]. split.
+  { assert (Ep : LoadsObjStmFile.ptops ex_fstyle_os ex_adoc_os =
+                 [((3, 2), OStream [(bs "Length", ORef 4 0)] (bs "a(b" ++ [x0d; x0a]), default_istyle);
+                  ((9, 0), OStr (bs "top") true, default_istyle)]) by (vm_compute; reflexivity).
+    rewrite Ep. constructor; [|constructor; [|constructor]]; cbn;
+      repeat match goal with
+             | |- _ /\ _ => split
+             | |- NoDup _ => repeat (constructor; [cbn; intuition discriminate|]); constructor
+             | |- True => exact I
+             | |- _ = true => reflexivity
+             | |- _ = false => reflexivity
+             | |- (_ <= _)%nat => vm_compute; lia
+             | |- _ <= _ => unfold u32_max, u16_max; lia
+             | |- _ \/ _ => right; exists 4, 0; split; [reflexivity|]; right; left; reflexivity
+             end. }
+  split.
+  { constructor; [|constructor]. unfold LoadsObjStmFile.cont_ok.
+    split; [discriminate|]. split; [vm_compute; discriminate|]. split.
+    { assert (Eq : ObjStmSpellProofs.os_pairs (a_objs ex_adoc_os) (os_members ex_ostm) (os_items ex_ostm) =
+                   ObjStmSpellProofs.os_pairs ex_os_objs [4; 7; 5] ex_os_sts) by (vm_compute; reflexivity).
+      rewrite Eq. destruct C02_example_objstm_any_spelling as [it [_ [_ [H _]]]]. exact H. }
+    split; [vm_compute; discriminate|]. split; [exact I|].
+    assert (EdC : ObjStmFilterProofs.dC ex_ostm (LoadsObjStmFile.itemsof ex_adoc_os ex_ostm) =
+                  [(bs "Type", OName (bs "ObjStm")); (bs "N", OInt 3); (bs "First", OInt 14);
+                   (bs "Filter", OArr [OName (bs "ASCII85Decode"); OName (bs "FlateDecode")]); (bs "Length", OInt 169)]) by (vm_compute; reflexivity).
+    rewrite EdC. split; [|vm_compute; lia].
+    cbn. repeat match goal with
+                | |- _ /\ _ => split
+                | |- NoDup _ => repeat (constructor; [cbn; intuition discriminate|]); constructor
+                | |- True => exact I
+                | |- _ = true => reflexivity
+                end. }
+  split.
+  { rewrite Hd. split; [|vm_compute; lia].
+    cbn. repeat match goal with
+                | |- _ /\ _ => split
+                | |- NoDup _ => repeat (constructor; [cbn; intuition discriminate|]); constructor
+                | |- True => exact I
+                | |- _ = true => reflexivity
+                | |- _ <= _ => unfold u32_max, u16_max; lia
+                end. }
+  split; [rewrite Hx, Hs; unfold u32_max; repeat split; lia|].
+  split; [rewrite Hx; vm_compute; lia|].
+  vm_compute. split; reflexivity.
+Qed.
+
 (* the frame: Reader::read reduced to its pieces, for any file junk ++ F *)
 Theorem C02_load_frame :
   forall (junk F pre xr : bytes) version x0 t0 objs,
@@ -1003,6 +1170,11 @@ Print Assumptions C02_loads_table_reflen_partial.
 Print Assumptions C02_example_loads_table_reflen.
 Print Assumptions C02_objstm_new_filtered.
 Print Assumptions C02_example_objstm_new_filtered.
+Print Assumptions C02_loads_objstm_partial.
+Print Assumptions C02_member_value.
+Print Assumptions C02_merge_object_streams.
+Print Assumptions C02_zero_length_pass.
+Print Assumptions C02_example_loads_objstm.
 Print Assumptions C02_load_frame.
 Print Assumptions C02_example_loads_table.
 Print Assumptions C02_example_object.
